@@ -456,6 +456,16 @@ impl DnsCache {
 
     /// Removes all records of a service type: PTR, SRV, TXT records and any ADDR records
     /// that are not referenced by any SRV record.
+    /// Returns true if any cached PTR record points to `instance`.
+    pub(crate) fn has_ptr_to(&self, instance: &str) -> bool {
+        self.ptr.values().flatten().any(|ptr| {
+            ptr.record
+                .any()
+                .downcast_ref::<DnsPointer>()
+                .map_or(false, |dns_ptr| dns_ptr.alias() == instance)
+        })
+    }
+
     pub(crate) fn remove_service_type(&mut self, ty_domain: &str) {
         let Some(ptr_records) = self.ptr.get_mut(ty_domain) else {
             return;
